@@ -346,7 +346,9 @@ class ReadTarFS(FS):
                 member.type = tarfile.DIRTYPE
 
             raw_info["basic"] = {
-                "name": basename(self._decode(member.name)),
+                # the name of the (normalised) path that was asked for: the raw
+                # member name may end in "." or ".." ("a/.", "b/c/..")
+                "name": basename(_path),
                 "is_dir": member.isdir(),
             }
 
